@@ -8,7 +8,7 @@ wt=/tmp/conf/$name
 mkdir -p /tmp/conf
 git -C /repo worktree remove --force "$wt" >/dev/null 2>&1
 git -C /repo worktree add --detach "$wt" HEAD >/dev/null 2>&1 || { echo "CONFIRM $name worktree-failed"; exit 3; }
-mkdir -p "$wt/_seed"; cp "$src/patch.diff" "$src/demo.py" "$wt/_seed/"
+mkdir -p "$wt/_seed"; cp -r "$src"/. "$wt/_seed/"
 cd "$wt" || exit 3
 PYTHONPATH=$wt timeout 600 /venv/bin/python -B _seed/demo.py >/tmp/conf/$name.clean.log 2>&1; rc_clean=$?
 if ! git apply _seed/patch.diff 2>/tmp/conf/$name.apply.log; then
